@@ -652,6 +652,13 @@ class RequestHandler(BaseProtocol, Generic[_Request]):
                     request.remote,
                     exc_info=exc.__cause__,
                 )
+            if request.writer.output_size > 0:
+                # as in handle_error(): a response is on the wire already,
+                # another one must not be written into it
+                raise ConnectionError(
+                    "Response is sent already, cannot send another response "
+                    "for the raised HTTPException"
+                )
             resp = Response(
                 status=exc.status, reason=exc.reason, text=exc.text, headers=exc.headers
             )
